@@ -1,15 +1,15 @@
 import TTModel.FS
-import TTGen.SavePlan
+import TTGen.C18_SavePlan
 /-!
 # C18 — a crash while writing a checkpoint never loses the last good checkpoint
 
-Theorems are about `TTGen.SavePlan.prog`, which the translator regenerates from
+Theorems are about `TTGen.C18_SavePlan.prog`, which the translator regenerates from
 `torchtree/core/parameter_utils.py:save_parameters` on every run, executed under the
 file-system model `TT.FS` with the default flags (`safely=True, overwrite=False`) —
 the flags every checkpointing caller that overwrites one file uses.
 -/
 namespace TTProps.C18
-open TT.FS TTGen.SavePlan
+open TT.FS TTGen.C18_SavePlan
 
 def defaultFlags : Flags := ⟨true, false⟩
 
